@@ -515,7 +515,7 @@ func init() {
 			Property: "C13", Engine: "inputx", Level: "model_checking",
 			Jobs: C13Jobs,
 			Rule:   "every endpoint of both protocols with every field (JSON leaf paths, headers, path ids, query parameters, protobuf scalar / message / map fields found by reflection) set to every value of a hostile menu (absent, null, empty, negative, 0, min/max int, wrong JSON type, 64 KiB, template syntax, JSON literals as strings, separators, markup, non-ASCII, NUL, receiver objects with null data, forged and validly-signed-empty cursors; routing and time-out tags with those values), one deviation at a time, through the real front ends into the real kernel on a fresh database with prerequisite resources; after every accepted input: background cycles, +1h, restart, far-future cycles, health read; each input in a crash-isolated worker with restart at the next input; distinct = reply classes per endpoint",
-			Assume: []string{"single-field deviations (pairs are not enumerated); oversized = 64 KiB; the kernel jobs end at capture plugins; the receiver data that travels beyond them is handed to the real poll and http transport workers by the separate job C13/transports (27 documents x 2 transports x invoke / notify)"},
+			Assume: []string{"single-field deviations (pairs are not enumerated); oversized = 64 KiB; the kernel jobs end at capture plugins; the receiver data that travels beyond them is handed to the real poll and http transport workers by the separate job C13/transports (27 documents x 2 transports x invoke / notify, a live endpoint, and a three-message sequence through one http worker)"},
 			QuickS: 170, ThoroughS: 900,
 		}
 	}
